@@ -86,6 +86,7 @@ func (x *vc) call(fr *frame, st *state, in ssa.CallInstruction, pos string) Val 
 			if _, isIface := resT.Underlying().(*types.Interface); isIface && r.T != "" {
 				x.assume(st.guard, not(eq(app("itag", r.T), "0")))
 			}
+			x.recordNamedResult(fr, "reflect.Type."+cc.Method.Name(), r, st.guard) // ret("reflect.Type.Field#0", 0)
 			return r
 		}
 		x.havocCall(st, resT, "interface method "+cc.Method.FullName(), true)
@@ -489,6 +490,13 @@ func (x *vc) applyContract(fr *frame, st *state, fc *funcContract, callee *ssa.F
 			// a postcondition phrased over the callee's own inner calls means nothing at its call sites: not assumed there
 			continue
 		}
+		if dropTaggedPostsFor != "" {
+			// dependency analysis (GOVC_DROP_TAGGED_POSTS=Cnn): which obligations of property Cnn rest on postconditions
+			// that are claimed for other properties only? Those are not assumed in this mode; what then fails shows it.
+			if p := tagProp(e.tag); p != "" && !propMatch(p, dropTaggedPostsFor) {
+				continue
+			}
+		}
 		x.assume(st.guard, x.evalBool(post, e.expr))
 	}
 	for _, out := range copyOuts {
@@ -701,9 +709,10 @@ func (x *vc) builtin(fr *frame, st *state, b *ssa.Builtin, cc *ssa.CallCommon, a
 		m := args[0]
 		mt := m.Typ.Underlying().(*types.Map)
 		d, _, l := x.mapArrs(st, mt)
-		had := and(not(eq(m.T, "0")), app("select", app("select", st.heap[d], m.T), args[1].T))
+		dk := x.mapKey(mt, args[1].T)
+		had := and(not(eq(m.T, "0")), app("select", app("select", st.heap[d], m.T), dk))
 		st.heap[l] = x.define(l, x.heapSorts[l], ite(had, app("store", st.heap[l], m.T, app("-", app("select", st.heap[l], m.T), "1")), st.heap[l]))
-		st.heap[d] = x.define(d, x.heapSorts[d], ite(eq(m.T, "0"), st.heap[d], app("store", st.heap[d], m.T, app("store", app("select", st.heap[d], m.T), args[1].T, "false"))))
+		st.heap[d] = x.define(d, x.heapSorts[d], ite(eq(m.T, "0"), st.heap[d], app("store", st.heap[d], m.T, app("store", app("select", st.heap[d], m.T), dk, "false"))))
 		return Val{}
 	case "recover":
 		r := x.freshVal("recovered", resT, st)
